@@ -142,6 +142,27 @@ impl Environment {
         result
     }
 
+    #[cfg(feature = "verif-hooks")]
+    fn flatten_into(&self, result: &mut HashMap<String, Value>) {
+        if let Some(parent) = &self.parent {
+            parent.flatten_into(result);
+        }
+        match &self.local {
+            LocalBindings::Owned(map) => {
+                let map = map.borrow();
+                for (key, value) in crate::verif_hooks::order(map.iter().collect()) {
+                    result.insert(key.clone(), *value);
+                }
+            }
+            LocalBindings::Shared(map) => {
+                for (key, value) in crate::verif_hooks::order(map.iter().collect()) {
+                    result.insert(key.clone(), *value);
+                }
+            }
+        }
+    }
+
+    #[cfg(not(feature = "verif-hooks"))]
     fn flatten_into(&self, result: &mut HashMap<String, Value>) {
         // First add parent bindings (so local can override)
         if let Some(parent) = &self.parent {
